@@ -23,6 +23,10 @@ PROP = "C03"
 TAGS = {"c": "consistent: spec successor", "I": "inconsistent: frame/membership oracle + exact model state (order observed)",
         "i": "inconsistent: frame/membership oracle only", "r": "refused call: an error expected", "?": "no reading / shard failed"}
 BATCH = 400
+# one coqc start (loading Corr/C03.vo and what it needs) costs ~0.85 CPU-s: shards of ~200 kB / 16 worlds instead of 110 kB / 8 halve that
+# share (it was ~30 % of the thorough tier's CPU time); literals of this size parse without trouble under 'ulimit -s unlimited'
+SHARD_WORLDS = 16
+SHARD_BYTES = 200_000
 HEADER = "From Coq Require Import PrimFloat.\nFrom Verif Require Import Spec.Pddl Corr.Core Corr.C03.\n"
 
 
@@ -687,6 +691,7 @@ def xs_world(rng, body, tier):
             ptexts.append(xs_problem(st))
     nwhen = sum(1 for k, _ in body if k == "when")
     nuniv = sum(1 for k, _ in body if k == "forall")
+    shadow = any(q[1][0] == "?x" for q, _ in quantifier_nodes(eff, [], []))
     calls = [("act", ["o0"]), ("act", ["o1"])]
     probes = []
     for si in range(len(states)):
@@ -699,7 +704,7 @@ def xs_world(rng, body, tier):
             for k in ks:
                 probes.append({"action": an, "args": args, "state": si, "call": ci, "perm": k,
                                "uperm": None if k is None else (si // 2) % max(1, n_perms(nuniv)),
-                               "inner_seed": 0 if k is None else 1 + si, "klass": None,
+                               "inner_seed": 0 if k is None else 1 + si, "klass": None, "shadow": shadow,
                                "shape": {"nwhen": nwhen, "nuniv": nuniv,
                                          "numeric": sum(1 for x in flatten(eff) if x in ("assign", "increase", "decrease"))}})
     # call sequences on one Operator object: from every state a chain of three calls, and per call one Operator
@@ -713,12 +718,13 @@ def xs_world(rng, body, tier):
         k = None if (si // 2) % 2 == 0 or (total == 1 and nuniv <= 1) else (si + ci) % max(total, 2)
         seqs.append({"action": calls[ci][0], "args": calls[ci][1], "call": ci, "start": si, "perm": k,
                      "uperm": None if k is None else (si // 2) % max(1, n_perms(nuniv)), "inner_seed": 0 if k is None else 1 + si,
-                     "kind": "chain", "steps": [{"src": None, "allow": bool((si >> j) & 1)} for j in range(3)], "shape": shape})
+                     "kind": "chain", "steps": [{"src": None, "allow": bool((si >> j) & 1)} for j in range(3)], "shape": shape,
+                     "shadow": shadow})
     for ci, (an, cargs) in enumerate(calls):
         order = list(range(len(states)))
         rng.shuffle(order)
         seqs.append({"action": an, "args": cargs, "call": ci, "start": order[0], "perm": None, "uperm": None, "inner_seed": 0,
-                     "kind": "spread", "steps": [{"src": j, "allow": bool(j & 1)} for j in order], "shape": shape})
+                     "kind": "spread", "steps": [{"src": j, "allow": bool(j & 1)} for j in order], "shape": shape, "shadow": shadow})
     return {"domain_text": text, "objects": XS_OBJS, "states": states, "problem_texts": ptexts, "probes": probes, "seqs": seqs,
             "stream": "small-scope", "features": ["xs"], "witness_of": None, "compact": True, "calls": calls,
             "atom_list": XS_ATOMS, "atom_index": {k: i for i, k in enumerate(XS_ATOMS)}, "fkey_list": XS_FKEYS}
@@ -995,10 +1001,11 @@ def run(args):
         # further hash seeds only change the NATURAL iteration order of the hash sets (forced permutations are already
         # exhaustive): they re-run every stream, but only every 4th body of the small scope
         # ... and there only the probes / sequences that run in the natural order
+        # ... and every generated world under TWO of the three further hash seeds
         all_worlds = base_worlds if hs == hashseeds[0] else \
             [dict(w, probes=[p for p in w["probes"] if p.get("perm") is None],
                   seqs=[q for q in w.get("seqs", []) if q.get("perm") is None], _light=None)
-             for i, w in enumerate(base_worlds) if w["stream"] != "small-scope" or i % 6 == hs % 6]
+             for i, w in enumerate(base_worlds) if (i % 3 != hs % 3 if w["stream"] != "small-scope" else i % 6 == hs % 6)]
         # in batches: results of a batch are released before the next one (the thorough tier has ~10^5 probes)
         for b0 in range(0, len(all_worlds), BATCH):
             worlds = all_worlds[b0:b0 + BATCH]
@@ -1032,8 +1039,8 @@ def run(args):
                 lits.append(lit)
                 units.append(2 * len(wd["probes"]) + 2 * len(res.get("seqs", [])))
                 keep.append(wi)
-            both, info = run_case_shards(PROP, "Corr.C03", lits, shard_size=8, units=[2 * u for u in units], header_extra=HEADER,
-                                         max_bytes=110_000, run_fn="Corr.C03.run2")
+            both, info = run_case_shards(PROP, "Corr.C03", lits, shard_size=SHARD_WORLDS, units=[2 * u for u in units],
+                                         header_extra=HEADER, max_bytes=SHARD_BYTES, run_fn="Corr.C03.run2")
             verdicts, tags = both[0::2], both[1::2]
             _lap("coq shards (%d)" % info["shards"])
             if hs == hashseeds[0]:
@@ -1218,10 +1225,14 @@ def run(args):
     cov["hash_seeds"] = hashseeds
     cov["numeric_config"] = cfg
     cov["exhaustive"] = bool(exhaustive)
-    cov["exhaustive_scope"] = ("all effect bodies of 1 or 2 items out of %d (7 primitive effects, 25 'when', 24 'forall-when' over types t and its "
-                               "subtype u) x all 8 fact sets over {p o0, p o1, q} x 2 fluent valuations x 2 calls: %d bodies%s"
-                               % (len(xs_items()), len(xs_bodies()), " under the first hash seed, every 6th body under each of the three further hash seeds; per body also 16 chains of 3 calls and 2 spreads over all 16 states on one Operator object" if exhaustive
-                                  else " (quick tier: a fixed core of 6 bodies + a sample of 18)"))
+    cov["exhaustive_scope"] = ("one action act(?x - t), types u < t, objects o0 - t, o1 - u; all effect bodies of 1 or 2 items out of %d (7 primitive effects, 25 'when', "
+                               "24 'forall-when' over types t and its subtype u): %d bodies; plus %d SHADOWING bodies out of %d items whose quantifier binds the parameter's "
+                               "name ?x (8 'forall-when', 4 'when' with a quantified condition): each alone, every pair, each with every primitive effect and with every 4th "
+                               "'when' / 'forall-when' item; x all 8 fact sets over {p o0, p o1, q} x 2 fluent valuations x 2 calls, natural order and one rotating permutation%s"
+                               % (len(xs_items()), len(xs_bodies()), len(xs_shadow_bodies()), len(xs_shadow_items()),
+                                  "; all of it under the first hash seed, every 6th body under each of the three further hash seeds; per body also 16 chains of 3 calls "
+                                  "(one from every state, all allow-flag patterns) and 2 spreads over all 16 states on one Operator object" if exhaustive
+                                  else " (quick tier: a fixed core of 10 bodies, 4 of them shadowing, + a sample of 14)"))
     cov["rule"] = ("streams: corpus witnesses; the repository's own domains with conditional/universal effects (miconic, learned miconic, nurikabe, spider) with "
                    "their shipped problems, states taken along a guided random walk; random typed domains (pddlgen: <=4 types, constants, 2-4 predicates, <=3 functions, actions with "
                    "add/del/assign/increase/decrease/when/forall-when kept consistent, layout/case/comment noise), 2-3 objects, random states, "
@@ -1229,7 +1240,10 @@ def run(args):
                    "unconditional group WRITES (and the other way round), half of them with a constant of the quantified type; guard-shape: preconditions of one kind only (only "
                    "(in)equalities, only a forall, only an 'or', only comparisons, empty), called with equal and with different objects; quantified-constant: a constant of a type "
                    "that a forall-when / a quantified 'when' condition ranges over (D30 class); a quantified conjunct planted in a 'when' condition (D40 class); delete+add of one atom "
-                   "in one group; clashing groups planted (a 'when' or the instances of a 'forall-when' against the unconditional group / each other): there the spec successor is "
+                   "in one group; shadow: quantified variables of the effects (universal effects, quantifiers inside 'when' / 'forall-when' conditions, now and then the precondition) "
+                   "renamed - without capture - to an action parameter or to an enclosing quantified variable, 3-4 objects (table shadowing); object-table: a problem WITHOUT objects "
+                   "(the Operator gets an empty dict) with / without constants of the quantified type, a quantified type nothing inhabits, and Operators built with "
+                   "problem_objects=None (judged against the action without its quantified parts) (table object_tables); clashing groups planted (a 'when' or the instances of a 'forall-when' against the unconditional group / each other): there the spec successor is "
                    "undefined and the returned state is judged by the frame/membership oracle (Corr/C03.v weak_succ_ok) and compared EXACTLY with the model run in the observed "
                    "visiting order; the small scope. Every (state, call) is applied in the natural hash order and in forced permutations of "
                    "the parse order (all permutations in thorough when <=4 groups), sets inside a group shuffled too; two units per probe: successor with "
@@ -1248,6 +1262,7 @@ def run(args):
     rep.assumptions = ["fluent magnitudes below 1e4 and no division by a fluent (C12 covers the arithmetic kernel)", "ASCII text",
                        "states define every fluent",
                        "effects consistent for the successor oracle (inconsistent probes: frame/membership oracle + exact agreement with the model in the observed visiting order)",
-                       "a sequence re-uses ONE Operator object; states handed to it are the objects it returned or fresh copies"]
+                       "a sequence re-uses ONE Operator object; states handed to it are the objects it returned or fresh copies",
+                       "further hash seeds (thorough): natural-order probes / sequences only, every generated world under two of the three, every 6th small-scope body"]
     _lap("decide + evidence")
     return rep.finish()
